@@ -213,3 +213,40 @@ Theorem C16_removed_refused_after_recover : forall c ms rs applied' t m,
   validate_change_membership applied' (snd (recover c ms rs)) t (Some m) = VAlreadyRemoved.
 Proof. exact removed_refused_after_recover. Qed.
 Print Assumptions C16_removed_refused_after_recover.
+
+(** Crash points.  The write units of an operation (one DB transaction / bulk flush each), run one
+    after the other, are the operation; for WalDB.SaveEntry as the consensus library calls it (batch
+    above the stored commit, new commit inside the new log) the state after EVERY prefix of its units
+    is consistent — reference log plus a stored commit index inside it, so ReadAll / replayWAL hand
+    over a state the library accepts; the opposite unit order is not crash safe; ClearWAL / ResetWAL
+    leave no WAL identity in any intermediate state (HasWal false: the node starts over). *)
+Theorem C16_units_compose : forall w o, (forall u, o <> WUnit u) -> wrun w (units_of o) = wstep w o.
+Proof. exact units_compose. Qed.
+Print Assumptions C16_units_compose.
+
+Theorem C16_crash_prefix_consistent : forall w r items hs k,
+  wal_consistent w r -> batch_wf r items ->
+  (forall t v c, w_hs w = Some (t, v, c) -> match items with [] => True | it0 :: _ => c < e_index (fst it0) end) ->
+  snd hs <= base r + N.of_nat (length (ents (spec_write r items))) ->
+  exists w', wrun w (firstn k (save_units items hs)) = Some w' /\
+             wal_consistent w' (match k with O => r | _ => spec_write r items end).
+Proof. exact crash_prefix_consistent. Qed.
+Print Assumptions C16_crash_prefix_consistent.
+
+Theorem C16_hardstate_first_not_crash_safe :
+  let w0 := wrun wal_empty [WIdent (1, 1, 1, 1); WWrite [E 0 1 1 1; E 0 1 2 2; E 0 1 3 3]; WHard (1, 1, 3)] in
+  match w0 with
+  | Some w => match wrun w (firstn 1 [WHard (1, 1, 5); WWrite [E 0 1 4 4; E 0 1 5 5]]) with
+              | Some w' => last_index w' = 3 /\ w_hs w' = Some (1, 1, 5)
+              | None => False
+              end
+  | None => False
+  end.
+Proof. exact hardstate_first_not_crash_safe. Qed.
+Print Assumptions C16_hardstate_first_not_crash_safe.
+
+Theorem C16_clear_reset_prefix_no_identity : forall w o k w',
+  (o = WClear \/ exists t c, o = WReset t c) -> (0 < k)%nat ->
+  wrun w (firstn k (units_of o)) = Some w' -> w_id w' = None.
+Proof. exact clear_reset_prefix_no_identity. Qed.
+Print Assumptions C16_clear_reset_prefix_no_identity.
